@@ -73,6 +73,13 @@ func (s *Sim) violate(prop, oracle, subject, detail string) {
 const warmupBlocks = 5
 
 func (engine) Run(prop string, seed uint64, tier string, replay *core.Schedule) (*core.Schedule, *core.Result) {
+	if prop == "C06" && ((replay != nil && replay.Engine == "storesim") || (replay == nil && seed%3 == 2)) {
+		// every third seed: the multistore alone, with transient writes made directly and through
+		// (nested) cache-wrapped multistores on one of two otherwise identical nodes
+		if e, ok := core.Engines["storesim"]; ok {
+			return e.Run(prop, seed, tier, replay)
+		}
+	}
 	r := core.NewRand(seed)
 	res := core.NewResult(seed)
 	var cfg *Config
